@@ -37,6 +37,39 @@ type ntChar struct {
 	ch  *characteristic.Characteristic
 	set func(v int)
 	get func() int
+
+	// the application's own callbacks (registered before the transport's): they record every change, and - when armed -
+	// answer the change to `trigger` by setting the value back (a momentary switch)
+	mu      sync.Mutex
+	changes []int
+	armed   bool
+	trigger int
+	back    int
+	mid     int
+}
+
+func (c *ntChar) onChange(nv interface{}) {
+	v := jsonTo01(nv)
+	if n, ok := nv.(int); ok {
+		v = n
+	}
+	c.mu.Lock()
+	c.changes = append(c.changes, v)
+	fire := c.armed && v == c.trigger
+	if fire {
+		c.armed = false
+		c.mid = c.get()
+	}
+	back := c.back
+	c.mu.Unlock()
+	if fire {
+		c.set(back)
+	}
+}
+
+func (c *ntChar) hook() {
+	c.ch.OnValueUpdate(func(ch *characteristic.Characteristic, nv, ov interface{}) { c.onChange(nv) })
+	c.ch.OnValueUpdateFromConn(func(conn netConn, ch *characteristic.Characteristic, nv, ov interface{}) { c.onChange(nv) })
 }
 
 type ntWorld struct {
@@ -59,11 +92,6 @@ func newNTWorld(seed int64, k int) (*ntWorld, error) {
 	sw := accessory.NewSwitch(accessory.Info{Name: "NotifyBridge"})
 	lb := accessory.NewColoredLightbulb(accessory.Info{Name: "NotifyBulb"})
 	lb.Lightbulb.Brightness.Perms = []string{characteristic.PermRead, characteristic.PermWrite} // z: no event permission
-	tr, err := startTransport(dir, "00102003", false, sw.Accessory, lb.Accessory)
-	if err != nil {
-		return nil, err
-	}
-	w.tr = tr
 	b2i := func(b bool) int {
 		if b {
 			return 1
@@ -73,6 +101,18 @@ func newNTWorld(seed int64, k int) (*ntWorld, error) {
 	w.chars["x"] = &ntChar{aid: sw.ID, ch: sw.Switch.On.Characteristic, set: func(v int) { sw.Switch.On.SetValue(v == 1) }, get: func() int { return b2i(sw.Switch.On.GetValue()) }}
 	w.chars["y"] = &ntChar{aid: lb.ID, ch: lb.Lightbulb.On.Characteristic, set: func(v int) { lb.Lightbulb.On.SetValue(v == 1) }, get: func() int { return b2i(lb.Lightbulb.On.GetValue()) }}
 	w.chars["z"] = &ntChar{aid: lb.ID, ch: lb.Lightbulb.Brightness.Characteristic, set: func(v int) { lb.Lightbulb.Brightness.SetValue(v) }, get: func() int { return lb.Lightbulb.Brightness.GetValue() }}
+	// the application registers its callbacks first, the transport adds its own when it is created
+	for _, c := range w.chars {
+		c.hook()
+	}
+	tr, err := startTransport(dir, "00102003", false, sw.Accessory, lb.Accessory)
+	if err != nil {
+		return nil, err
+	}
+	w.tr = tr
+	for _, c := range w.chars {
+		c.aid = map[bool]uint64{true: sw.ID, false: lb.ID}[c.ch == sw.Switch.On.Characteristic]
+	}
 	for _, n := range []string{"c1", "c2", "c3"} {
 		id := ref.NewIdentity("controller-"+n, rndFunc(w.rng))
 		w.ids[n] = id
@@ -208,7 +248,7 @@ func (w *ntWorld) runWord(b Beh, tr *Tracer) error {
 		}
 		o := J{"ev": "act", "case": b.ID, "i": i, "a": st.A, "c": st.C, "d": st.D, "ch": st.Ch, "v": st.V, "http": -1, "status": 0, "skipped": false, "panic": false}
 		cs := conns[st.C]
-		needConn := st.A == "RemoteRace" || st.A == "Close" || st.A == "Sub" || st.A == "Unsub" || st.A == "Remote" || st.A == "Getter" || st.A == "LocalRace" || st.A == "RemoteSub" || st.A == "RemoteUnsub"
+		needConn := (st.A == "Nested" && st.C != "app") || st.A == "RemoteRace" || st.A == "Close" || st.A == "Sub" || st.A == "Unsub" || st.A == "Remote" || st.A == "Getter" || st.A == "LocalRace" || st.A == "RemoteSub" || st.A == "RemoteUnsub"
 		if needConn && cs == nil {
 			o["skipped"] = true
 		} else {
@@ -286,6 +326,65 @@ func (w *ntWorld) runWord(b Beh, tr *Tracer) error {
 					v = st.V == 1
 				}
 				o["http"], o["status"] = w.put(cs, J{"aid": ch.aid, "iid": ch.ch.ID, "value": v, "ev": st.A == "RemoteSub"})
+			case "Nested":
+				// the application's callback answers the change to st.V by setting the value back
+				ch := w.chars[st.Ch]
+				ch.mu.Lock()
+				ch.armed, ch.trigger, ch.back, ch.mid = true, st.V, ch.get(), -1
+				ch.mu.Unlock()
+				if st.C == "app" {
+					func() {
+						defer func() {
+							if r := recover(); r != nil {
+								o["panic"] = true
+								atomic.AddInt64(&ntAppPanics, 1)
+							}
+						}()
+						ch.set(st.V)
+					}()
+				} else {
+					var v interface{} = st.V
+					if st.Ch != "z" {
+						v = st.V == 1
+					}
+					o["http"], o["status"] = w.put(cs, J{"aid": ch.aid, "iid": ch.ch.ID, "value": v})
+				}
+				ch.mu.Lock()
+				o["mid"] = ch.mid
+				ch.armed = false
+				ch.mu.Unlock()
+			case "LocalPair":
+				// two goroutines of the application: one sets the other value, one sets the current value
+				ch := w.chars[st.Ch]
+				cur := ch.get()
+				ch.mu.Lock()
+				ch.changes = nil
+				ch.mu.Unlock()
+				var wg sync.WaitGroup
+				start := make(chan struct{})
+				for _, v := range []int{1 - cur, cur} {
+					wg.Add(1)
+					go func(v int) {
+						defer wg.Done()
+						defer func() {
+							if r := recover(); r != nil {
+								atomic.AddInt64(&ntAppPanics, 1)
+							}
+						}()
+						<-start
+						ch.set(v)
+					}(v)
+				}
+				close(start)
+				wg.Wait()
+				ch.mu.Lock()
+				o["two"] = len(ch.changes) == 2
+				o["mid"] = -1
+				if len(ch.changes) > 0 {
+					o["mid"] = ch.changes[0]
+				}
+				ch.mu.Unlock()
+				o["v"] = 1 - cur
 			case "Local":
 				func() {
 					defer func() {
@@ -356,6 +455,7 @@ func (w *ntWorld) runWord(b Beh, tr *Tracer) error {
 		}
 		// fence: every open connection answers one request; EVENTs that arrived before the answer belong to this action
 		got := []string{}
+		seqs := J{"c1": []string{}, "c2": []string{}, "c3": []string{}}
 		fenceErr := []string{}
 		for _, n := range sortedKeys(conns) {
 			oc := conns[n]
@@ -363,11 +463,16 @@ func (w *ntWorld) runWord(b Beh, tr *Tracer) error {
 			if err != nil || m.Status != 200 {
 				fenceErr = append(fenceErr, n)
 			}
-			for _, e := range w.events(oc.c.TakeEvents()) {
+			evs := w.events(oc.c.TakeEvents())
+			for _, e := range evs {
 				got = append(got, n+"|"+e)
+			}
+			if evs != nil {
+				seqs[n] = evs // in the order of arrival on this connection
 			}
 		}
 		sort.Strings(got)
+		o["seqs"] = seqs
 		o["got"], o["fenceErr"], o["open"], o["val"] = got, fenceErr, sortedKeys(conns), vals()
 		lines = append(lines, o)
 	}
